@@ -186,6 +186,7 @@ type HarnessResult struct {
 	UnknownMsgs  []string
 	TraceSamples [][]WitnessVal
 	Params       map[string]int
+	DecHist      map[int]int
 }
 
 var endNames = map[PathEndKind]string{EndNormal: "normal", EndInfeasible: "infeasible", EndAssumeFalse: "assume-false",
@@ -491,6 +492,10 @@ func (r *Runner) RunHarness(spec HarnessSpec, tier string) *HarnessResult {
 				mu.Lock()
 				active--
 				hr.Paths++
+				if hr.DecHist == nil {
+					hr.DecHist = map[int]int{}
+				}
+				hr.DecHist[len(in.path.decisions)]++
 				hr.Ends[endNames[res.End]]++
 				hr.Instrs += in.instrs
 				if res.Inexact {
